@@ -169,6 +169,7 @@ type Case struct {
 		Mature bool   `json:"mature"`
 		Oct    int64  `json:"oct"`
 		From   int64  `json:"from"`
+		Hist   string `json:"hist"` // "fresh" | "truncated": retention has removed an older fraction of the store
 	} `json:"store"`
 }
 
@@ -653,8 +654,8 @@ var realStores = map[string]*realStore{}
 // openRealStore builds a store in the given mode holding documents 8.1, 9.1, 10.1 (abstract times) in a
 // sealed fraction, restarts it (maturity is decided at load time by the `.immature` marker that retention
 // removes when it first deletes a fraction) and waits for the maintenance loop to publish OldestCT.
-func openRealStore(mode string, mature bool, oct int64) (*realStore, error) {
-	key := fmt.Sprintf("%s/%v/%d", mode, mature, oct)
+func openRealStore(mode string, mature bool, oct int64, hist string) (*realStore, error) {
+	key := fmt.Sprintf("%s/%v/%d/%s", mode, mature, oct, hist)
 	if s, ok := realStores[key]; ok {
 		return s, nil
 	}
@@ -665,6 +666,17 @@ func openRealStore(mode string, mature bool, oct int64) (*realStore, error) {
 	e, err := env.New(env.Opts{Dir: dir, StoreMode: mode, SkipFsync: true})
 	if err != nil {
 		return nil, err
+	}
+	var total uint64
+	if hist == "truncated" {
+		// an older fraction, created more than two (abstract: three) seconds before the one that will be the oldest
+		// after retention, so that a request starting at abstract time 3 falls between the two creation times
+		if err := e.Bulk([]env.Doc{{MID: uint64(e.FM().Active().Info().CreationTime), RID: 1, Tok: map[string][]string{"k": {"x"}}, Body: `{"b":"4.1@h11"}`}}); err != nil {
+			return nil, err
+		}
+		e.WaitIdle()
+		time.Sleep(2200 * time.Millisecond)
+		e.Seal()
 	}
 	ct := e.FM().Active().Info().CreationTime
 	var docs []env.Doc
@@ -677,13 +689,18 @@ func openRealStore(mode string, mature bool, oct int64) (*realStore, error) {
 	}
 	e.Seal()
 	e.Store.WaitIdle()
+	total = e.FM().GetAllFracs().GetTotalSize()
 	e.Store.FracManager.Stop()
 	if mature {
 		if err := os.Remove(filepath.Join(dir, ".immature")); err != nil {
 			return nil, fmt.Errorf("no immaturity marker to remove: %w", err)
 		}
 	}
-	e2, err := env.New(env.Opts{Dir: dir, StoreMode: mode, SkipFsync: true})
+	o2 := env.Opts{Dir: dir, StoreMode: mode, SkipFsync: true}
+	if hist == "truncated" {
+		o2.TotalSize = total - 1 // the first maintenance pass has to remove the oldest fraction, and only that one
+	}
+	e2, err := env.New(o2)
 	if err != nil {
 		return nil, err
 	}
@@ -692,7 +709,15 @@ func openRealStore(mode string, mature bool, oct int64) (*realStore, error) {
 		time.Sleep(5 * time.Millisecond)
 	}
 	s := &realStore{env: e2, oct: e2.FM().OldestCT.Load()}
-	if s.oct != ct {
+	if hist == "truncated" {
+		// what the store holds decides what the model's OldestCT stands for; what the store ADVERTISES
+		// (FracManager.OldestCT) shows in its answers
+		fr := e2.FM().GetAllFracs()
+		if len(fr) == 0 || fr[0].Info().CreationTime != ct || fr[0].Info().DocsTotal != 3 {
+			return nil, fmt.Errorf("retention was to leave the fraction created at %d as the oldest one, the store holds %d fractions", ct, len(fr))
+		}
+		s.oct = ct
+	} else if s.oct != ct {
 		return nil, fmt.Errorf("OldestCT=%d, creation time of the first fraction was %d", s.oct, ct)
 	}
 	if e2.FM().Mature() != mature {
@@ -743,7 +768,7 @@ func (f *realClient) Fetch(ctx context.Context, in *pb.FetchRequest, o ...grpc.C
 }
 
 func runRealStore(c *Case) (Outcome, error) {
-	s, err := openRealStore(c.Store.Mode, c.Store.Mature, c.Store.Oct)
+	s, err := openRealStore(c.Store.Mode, c.Store.Mature, c.Store.Oct, c.Store.Hist)
 	if err != nil {
 		return Outcome{}, err
 	}
